@@ -50,7 +50,7 @@ pub struct UpdateResult {
 pub struct Exec {
   pub sim: Arc<Sim>,
   pub config: Config,
-  pub index: Option<Index>,
+  pub index: Option<Arc<Index>>,
   pub height_limit: Option<u32>,
   pub hidden: Vec<String>,
   pub events: Vec<Event>,
@@ -175,7 +175,7 @@ impl Exec {
     }));
     match opened {
       Ok(Ok(index)) => {
-        self.index = Some(index);
+        self.index = Some(Arc::new(index));
         self.event_rx = receiver;
         Ok(())
       }
@@ -361,6 +361,14 @@ impl Exec {
 
   pub fn index(&self) -> &Index {
     self.index.as_ref().expect("index open")
+  }
+
+  pub fn index_arc(&self) -> Arc<Index> {
+    self.index.as_ref().expect("index open").clone()
+  }
+
+  pub fn scratch_dir(&self) -> PathBuf {
+    scratch_dir()
   }
 
   pub fn take_events(&mut self) -> Vec<Event> {
